@@ -47,12 +47,20 @@ pub struct JoinFut<'a> {
     migrate: bool,
     pos: usize,
     rr: usize,
+    /// called on the fresh thread right after a migrated poll returned (observes what it left behind)
+    after_foreign_poll: &'a (dyn Fn() + Sync),
     /// first panic caught on a migrated poll
     fail: &'a std::sync::Mutex<Option<vcore::Fail>>,
 }
 
-pub fn join<'a>(tasks: Vec<BoxFut<'a>>, schedule: &'a [u8], migrate: bool, fail: &'a std::sync::Mutex<Option<vcore::Fail>>) -> JoinFut<'a> {
-    JoinFut { tasks: tasks.into_iter().map(Some).collect(), schedule, migrate, pos: 0, rr: 0, fail }
+pub fn join<'a>(
+    tasks: Vec<BoxFut<'a>>,
+    schedule: &'a [u8],
+    migrate: bool,
+    after_foreign_poll: &'a (dyn Fn() + Sync),
+    fail: &'a std::sync::Mutex<Option<vcore::Fail>>,
+) -> JoinFut<'a> {
+    JoinFut { tasks: tasks.into_iter().map(Some).collect(), schedule, migrate, pos: 0, rr: 0, after_foreign_poll, fail }
 }
 
 impl<'a> Future for JoinFut<'a> {
@@ -77,8 +85,16 @@ impl<'a> Future for JoinFut<'a> {
         let ready = if elsewhere {
             // like a work-stealing runtime resuming the task on another worker: this poll runs on a
             // fresh thread (whose ambient context is empty), the next one may be back here
+            let hook = this.after_foreign_poll;
             let r = std::thread::scope(|s| {
-                s.spawn(|| vcore::catch(|| task.as_mut().poll(&mut Context::from_waker(Waker::noop())).is_ready())).join()
+                s.spawn(|| {
+                    vcore::catch(|| {
+                        let ready = task.as_mut().poll(&mut Context::from_waker(Waker::noop())).is_ready();
+                        hook();
+                        ready
+                    })
+                })
+                .join()
             });
             match r {
                 Ok(Ok(ready)) => ready,
@@ -111,11 +127,16 @@ impl<'a> Future for JoinFut<'a> {
 pub struct Alternating<'a, F> {
     inner: Pin<Box<F>>,
     polls: usize,
+    after_foreign_poll: &'a (dyn Fn() + Sync),
     fail: &'a std::sync::Mutex<Option<vcore::Fail>>,
 }
 
-pub fn alternating<'a, F: Future<Output = ()> + Send>(inner: F, fail: &'a std::sync::Mutex<Option<vcore::Fail>>) -> Alternating<'a, F> {
-    Alternating { inner: Box::pin(inner), polls: 0, fail }
+pub fn alternating<'a, F: Future<Output = ()> + Send>(
+    inner: F,
+    after_foreign_poll: &'a (dyn Fn() + Sync),
+    fail: &'a std::sync::Mutex<Option<vcore::Fail>>,
+) -> Alternating<'a, F> {
+    Alternating { inner: Box::pin(inner), polls: 0, after_foreign_poll, fail }
 }
 
 impl<'a, F: Future<Output = ()> + Send> Future for Alternating<'a, F> {
@@ -128,8 +149,16 @@ impl<'a, F: Future<Output = ()> + Send> Future for Alternating<'a, F> {
             return this.inner.as_mut().poll(cx);
         }
         let inner = &mut this.inner;
+        let hook = this.after_foreign_poll;
         let r = std::thread::scope(|s| {
-            s.spawn(|| vcore::catch(|| inner.as_mut().poll(&mut Context::from_waker(Waker::noop())).is_ready())).join()
+            s.spawn(|| {
+                vcore::catch(|| {
+                    let ready = inner.as_mut().poll(&mut Context::from_waker(Waker::noop())).is_ready();
+                    hook();
+                    ready
+                })
+            })
+            .join()
         });
         let ready = match r {
             Ok(Ok(ready)) => ready,
